@@ -69,6 +69,11 @@ func safeRange(b *pclog.ProcessLogBuffer, off, lim int) (res []string, panicked 
 	return
 }
 
+type heldWin struct {
+	win, cp []string
+	at, atW int
+}
+
 type lbSeqSpec struct {
 	Size   int `json:"size"`
 	Writes int `json:"writes"`
@@ -82,6 +87,7 @@ func runLogSeq(c fw.Case) fw.Result {
 	b := pclog.NewLogBuffer(sp.Size)
 	ref := &refBuf{size: sp.Size}
 	var all []string
+	var helds []heldWin
 	checks := 0
 	shapes := map[string]bool{}
 	for w := 0; w <= sp.Writes; w++ {
@@ -121,6 +127,23 @@ func runLogSeq(c fw.Case) fw.Result {
 				}
 				if len(r.Findings) > 5 {
 					goto done
+				}
+			}
+		}
+		// windows handed out earlier must not change when the log moves on
+		for hi := 0; hi < len(helds); hi++ {
+			h := &helds[hi]
+			if !eqStrs(h.win, h.cp) {
+				r.Add("C18", "returned-window-mutated", "size %d: a window returned by GetLogRange at %d lines changed its content after %d more writes: %v -> %v", sp.Size, h.at, w-h.atW, trunc(h.cp), trunc(h.win))
+				helds = nil
+				break
+			}
+		}
+		if w%37 == 5 {
+			if win, p := safeRange(b, n, 0); p == nil && len(win) > 0 {
+				helds = append(helds, heldWin{win: win, cp: append([]string(nil), win...), at: n, atW: w})
+				if len(helds) > 8 {
+					helds = helds[1:]
 				}
 			}
 		}
@@ -481,6 +504,8 @@ func init() {
 			var cs []fw.Case
 			for size := 0; size <= 3; size++ {
 				cs = append(cs, fw.MkCase("C18", "seq-exhaustive", int64(size), lbSeqSpec{Size: size, Writes: size + 230, Step: 1}))
+				// long run with sparse window checks: several trims in a row (aliasing of returned windows)
+				cs = append(cs, fw.MkCase("C18", "seq-long", int64(size), lbSeqSpec{Size: size * 7, Writes: size*7 + 650, Step: 53}))
 			}
 			rng := fw.Rand(seed)
 			for i := 0; i < tierN(tier, 6, 40); i++ {
@@ -502,7 +527,7 @@ func init() {
 		},
 		Run: func(c fw.Case) fw.Result {
 			switch c.Kind {
-			case "seq-exhaustive", "seq-sampled":
+			case "seq-exhaustive", "seq-sampled", "seq-long":
 				return runLogSeq(c)
 			case "linearizability":
 				return runLogLin(c)
